@@ -47,6 +47,7 @@ type Session struct {
 	Kind     string          `json:"kind"`   // locals | conc
 	Target   string          `json:"target"` // engine | pool
 	Gated    bool            `json:"gated"`
+	Silent   bool            `json:"silent"`
 	Parallel bool            `json:"parallel"` // locals on pool: issue all calls concurrently
 	PoolMin  int64           `json:"poolmin"`
 	PoolMax  int64           `json:"poolmax"`
@@ -139,6 +140,7 @@ func runLocals(s *Session, quiet time.Duration, seed int64, tmo time.Duration) (
 	atomic.StoreInt64(&execCounter, 0)
 	inj := &Inj{}
 	o := obs.New(s.Gated, quiet, seed+int64(s.ID)*977)
+	o.Silent = s.Silent
 	theObs = o
 
 	var g *engine.Gengine
@@ -314,6 +316,7 @@ func concText(s *Session) string {
 func runConc(s *Session, quiet time.Duration, seed int64, tmo time.Duration) ([]obs.Event, bool) {
 	all := []obs.Event{{"ev": "session", "id": s.ID}}
 	o := obs.New(s.Gated, quiet, seed+int64(s.ID)*733)
+	o.Silent = s.Silent
 	theObs = o
 	curChildren = map[string]Child{}
 	blocks := make([][]map[string]interface{}, 0)
